@@ -1,7 +1,10 @@
 package main
 
 import (
+	"fmt"
+	"go/token"
 	"golang.org/x/tools/go/ssa"
+	"os"
 )
 
 // rotateCallLoops brings the three-clause iterator loop
@@ -34,6 +37,9 @@ func rotateCallLoops(f *ssa.Function) bool {
 			}
 			c1, ex1 := trailingCall(pre)
 			c2, ex2 := trailingCall(post)
+			if os.Getenv("SIZERCHECK_DEBUGROTATE") != "" {
+				fmt.Fprintf(os.Stderr, "rotate %s h=%d pre=%d post=%d c1=%v c2=%v\n", f, h.Index, pre.Index, post.Index, c1 != nil, c2 != nil)
+			}
 			if c1 == nil || c2 == nil || !sameCall(c1, c2, h) {
 				continue
 			}
@@ -286,7 +292,71 @@ func sameCall(a, b *ssa.Call, h *ssa.BasicBlock) bool {
 		return false
 	}
 	for i := range a.Call.Args {
+		if sameCellLoad(a.Call.Args[i], b.Call.Args[i]) {
+			continue
+		}
 		if a.Call.Args[i] != b.Call.Args[i] || !invariant(a.Call.Args[i]) {
+			return false
+		}
+	}
+	return true
+}
+
+// sameCellLoad: two loads of one local that is assigned exactly once (also
+// counting the closures that capture it): they yield the same value.
+func sameCellLoad(a, b ssa.Value) bool {
+	la, ok1 := a.(*ssa.UnOp)
+	lb, ok2 := b.(*ssa.UnOp)
+	if !ok1 || !ok2 || la.Op != token.MUL || lb.Op != token.MUL || la.X != lb.X {
+		return false
+	}
+	cell, ok := la.X.(*ssa.Alloc)
+	if !ok || cell.Referrers() == nil {
+		return false
+	}
+	stores := 0
+	var readOnly func(v ssa.Value) bool
+	readOnly = func(v ssa.Value) bool {
+		refs := v.Referrers()
+		if refs == nil {
+			return true
+		}
+		for _, r := range *refs {
+			switch x := r.(type) {
+			case *ssa.UnOp:
+				if x.Op != token.MUL {
+					return false
+				}
+			case *ssa.DebugRef:
+			case *ssa.Store:
+				if x.Addr != v {
+					return false // the address escapes
+				}
+				stores++
+			case *ssa.MakeClosure:
+				fn, isFn := x.Fn.(*ssa.Function)
+				if !isFn {
+					return false
+				}
+				for i, bnd := range x.Bindings {
+					if bnd == v {
+						if i >= len(fn.FreeVars) || !readOnly(fn.FreeVars[i]) {
+							return false
+						}
+					}
+				}
+			default:
+				return false
+			}
+		}
+		return true
+	}
+	if !readOnly(cell) || stores != 1 {
+		return false
+	}
+	// the single assignment precedes both loads
+	for _, st := range storesTo(cell) {
+		if !instrDominates(st, la) || !instrDominates(st, lb) {
 			return false
 		}
 	}
